@@ -130,6 +130,8 @@ def c10_vocab(run):
 def c17_rf2(run):
     rf_alloc.rf2(run)
     run.min_instances('RF2', 300)
+    rf_alloc.rf27(run)
+    run.min_instances('RF27', 3)
 
 
 def c17_rf4(run):
